@@ -227,7 +227,7 @@ func GenUciSession(prop string, seed uint64) *Scenario {
 	if pf.ConfigSwarm {
 		sc.Config = map[string]interface{}{}
 		rate := []float64{0, 0.1, 0.3}[rng.Intn(3)]
-		for _, k := range []string{"UseRazoring", "UseQFP", "UseTTMove", "UseTTValue", "UseQSStandpat", "UseEvalTT"} {
+		for _, k := range []string{"UseRazoring", "UseQFP", "UseTTMove", "UseTTValue", "UseEvalTT"} {
 			if rng.Chance(rate) {
 				sc.Config[k] = !boolDefault(k)
 			}
@@ -247,6 +247,29 @@ func GenUciSession(prop string, seed uint64) *Scenario {
 		stallMs += int64(s.DurUs)/1000 + 1
 	}
 	firstGap := int64(200)
+	// budget: one search should not need more than ~80k yields (the run has
+	// 900k tie-free slots), so fake durations are capped by the cost model
+	perYieldNs := int64(sc.Cost.Every) * int64(sc.Cost.BaseNs)
+	capUs := 80_000 * perYieldNs / 1000
+	if capUs < 2000 {
+		capUs = 2000
+	}
+	capMs := capUs / 1000
+	clampUs := func(v int64) int64 {
+		if v > capUs {
+			return capUs
+		}
+		return v
+	}
+	clampMs := func(v int64, factor int64) int64 {
+		if v > capMs*factor {
+			return capMs * factor
+		}
+		if v < 1 {
+			return 1
+		}
+		return v
+	}
 	for s := 0; s < n; s++ {
 		if s > 0 && rng.Intn(100) < pf.NewGame {
 			add(gapAfterResult(rng), "send", "ucinewgame")
@@ -283,11 +306,11 @@ func GenUciSession(prop string, seed uint64) *Scenario {
 		case 1: // nodes
 			goLine = fmt.Sprintf("go nodes %d", rng.LogRange(1, 20000))
 		case 2: // movetime
-			mt := rng.LogRange(1, 400)
+			mt := clampMs(rng.LogRange(1, 400), 1)
 			goLine = fmt.Sprintf("go movetime %d", mt)
 			boundMs = mt + 2000
 		case 3: // clock
-			wt, bt := rng.LogRange(40, 20000), rng.LogRange(40, 20000)
+			wt, bt := clampMs(rng.LogRange(40, 20000), 20), clampMs(rng.LogRange(40, 20000), 20)
 			goLine = fmt.Sprintf("go wtime %d btime %d", wt, bt)
 			if rng.Chance(0.5) {
 				goLine += fmt.Sprintf(" winc %d binc %d", rng.LogRange(1, 2000), rng.LogRange(1, 2000))
@@ -300,10 +323,10 @@ func GenUciSession(prop string, seed uint64) *Scenario {
 			goLine = "go infinite"
 			selfLimit = false
 		case 5: // ponder
-			wt, bt := rng.LogRange(100, 5000), rng.LogRange(100, 5000)
+			wt, bt := clampMs(rng.LogRange(100, 5000), 20), clampMs(rng.LogRange(100, 5000), 20)
 			goLine = fmt.Sprintf("go ponder wtime %d btime %d", wt, bt)
 			if rng.Chance(0.3) {
-				goLine = fmt.Sprintf("go ponder movetime %d", rng.LogRange(5, 300))
+				goLine = fmt.Sprintf("go ponder movetime %d", clampMs(rng.LogRange(5, 300), 1))
 			}
 			selfLimit = false
 		case 6: // mate
@@ -332,14 +355,14 @@ func GenUciSession(prop string, seed uint64) *Scenario {
 		stopBoundMs := (stopChecksBound*perCheck+stopSlackNs)/1_000_000 + 1 + stallMs
 		if selfLimit {
 			if rng.Intn(100) < pf.EarlyStop {
-				st := add(rng.LogRange(1, 100000), "send", "stop")
+				st := add(clampUs(rng.LogRange(1, 100000)), "send", "stop")
 				st.Fault = "F1"
 				add(0, "wait_best", "").MaxMs = stopBoundMs + 50
 			} else {
 				add(0, "wait_best", "").MaxMs = boundMs + stallMs
 			}
 		} else {
-			gap := rng.LogRange(5, 300000)
+			gap := clampUs(rng.LogRange(5, 300000))
 			if mode == 5 && rng.Chance(0.6) {
 				// ponderhit, possibly twice, then the clock budget runs out (or we stop)
 				add(gap, "send", "ponderhit").Fault = "F5"
